@@ -162,7 +162,7 @@ theorem step_good (s : Str) (hwf : s.WF) (st : State) (h : GInv s st) (a : Act) 
         · exact h.workers w' hw'
     · simp only [hc, Bool.false_eq_true, if_false]
       trivial
-  | search i =>
+  | search i choice =>
     rw [step]
     cases hf : findWorker st.ws i with
     | none => trivial
@@ -179,43 +179,48 @@ theorem step_good (s : Str) (hwf : s.WF) (st : State) (h : GInv s st) (a : Act) 
           fun w' hw' => h.wsRows w' (mem_dropWorker hw').1
         have hdropGood : ∀ w' ∈ dropWorker st.ws i, WGood s st.S w' :=
           fun w' hw' => h.workers w' (mem_dropWorker hw').1
-        cases hcc : chooseCandidate s w1 with
+        cases choice with
         | none =>
           exact ⟨h.pinv, dropWorker_nodup i h.wsNodup, h.todoNodup, hdropRows, h.todoRows, hdropGood⟩
         | some j =>
-          have hrow1 : w1.row = i := by rw [hm1.row]; exact hr
-          refine ⟨h.pinv, ?_, h.todoNodup, ?_, h.todoRows, ?_⟩
-          · simp only [List.map_cons, List.nodup_cons]
-            refine ⟨?_, dropWorker_nodup i h.wsNodup⟩
-            rw [hrow1]; exact row_not_in_drop i
-          · intro w' hw'
-            rcases List.mem_cons.1 hw' with e | hw'
-            · subst e
-              show w1.row ∉ _ ∧ w1.row ∉ _
-              rw [hm1.row]; exact h.wsRows w hw
-            · exact hdropRows w' hw'
-          · intro w' hw'
-            rcases List.mem_cons.1 hw' with e | hw'
-            · subst e
-              have hmj := chooseCandidate_cand hcc
-              refine ⟨?_, ?_, ?_, ?_⟩
-              · show w1.k ≤ _; rw [hm1.k]; exact hg.kle
-              · show WInv s (st.S.take w1.k) _
-                rw [hm1.k]
-                exact ⟨hinv1.toWCore.congr rfl rfl rfl rfl rfl, hinv1.q2⟩
-              · intro j' hj'
-                have hj'' : j' ∈ colsIn s w.row := by
-                  have : ({ w1 with chosen := some j } : Worker).row = w.row := hm1.row
-                  rw [this] at hj'; exact hj'
-                exact hm1.marked j' (hg.rowm j' hj'')
-              · intro j' hj'
-                have e : j = j' := by simpa using hj'
-                subst e
-                refine ⟨hmj, ?_⟩
-                rcases hend1 with h0 | hq
-                · exact absurd h0 (hinv1.count.pos hmj)
-                · exact hq
-            · exact hdropGood w' hw'
+          simp only
+          by_cases hcj : w1.isCandidate j = true
+          · simp only [hcj, if_true]
+            have hmj : w1.mark j = Mark.cand := by simpa [Worker.isCandidate] using hcj
+            have hrow1 : w1.row = i := by rw [hm1.row]; exact hr
+            refine ⟨h.pinv, ?_, h.todoNodup, ?_, h.todoRows, ?_⟩
+            · simp only [List.map_cons, List.nodup_cons]
+              refine ⟨?_, dropWorker_nodup i h.wsNodup⟩
+              rw [hrow1]; exact row_not_in_drop i
+            · intro w' hw'
+              rcases List.mem_cons.1 hw' with e | hw'
+              · subst e
+                show w1.row ∉ _ ∧ w1.row ∉ _
+                rw [hm1.row]; exact h.wsRows w hw
+              · exact hdropRows w' hw'
+            · intro w' hw'
+              rcases List.mem_cons.1 hw' with e | hw'
+              · subst e
+                refine ⟨?_, ?_, ?_, ?_⟩
+                · show w1.k ≤ _; rw [hm1.k]; exact hg.kle
+                · show WInv s (st.S.take w1.k) _
+                  rw [hm1.k]
+                  exact ⟨hinv1.toWCore.congr rfl rfl rfl rfl rfl, hinv1.q2⟩
+                · intro j' hj'
+                  have hj'' : j' ∈ colsIn s w.row := by
+                    have : ({ w1 with chosen := some j } : Worker).row = w.row := hm1.row
+                    rw [this] at hj'; exact hj'
+                  exact hm1.marked j' (hg.rowm j' hj'')
+                · intro j' hj'
+                  have e : j = j' := by simpa using hj'
+                  subst e
+                  refine ⟨hmj, ?_⟩
+                  rcases hend1 with h0 | hq
+                  · exact absurd h0 (hinv1.count.pos hmj)
+                  · exact hq
+              · exact hdropGood w' hw'
+          · simp only [hcj, Bool.false_eq_true, if_false]
+            trivial
   | validate i =>
     rw [step]
     cases hf : findWorker st.ws i with
